@@ -87,6 +87,13 @@ def check_extents(rec, sc, case):
 
 # ---- replacement bodies ----------------------------------------------------
 def soup_body(rng, forbid, maxlen=30):
+    if rng.random() < 0.01:
+        # a body longer than typical look-ahead windows / buffers
+        unit = soup_body(rng, forbid, 20) + ' ; '
+        body = unit * (rng.choice([9000, 20000, 70000]) // max(1, len(unit)))
+        for f in forbid:
+            body = body.replace(f, '')
+        return body
     n = rng.randint(0, maxlen)
     out = []
     for _ in range(n):
